@@ -221,7 +221,9 @@ func c11r4(r *R) {
 			}
 		case p.Ret[0] == "invoke context.Context.Err($1)":
 			nErr++
-			if !p.hasCond(func(c string) bool { return strings.HasPrefix(c, "(select(<-invoke context.Context.Done($1),") && strings.HasSuffix(c, "#0 == 0)") }) {
+			if !p.hasCond(func(c string) bool {
+				return strings.HasPrefix(c, "(select(<-invoke context.Context.Done($1),") && strings.HasSuffix(c, "#0 == 0)")
+			}) {
 				why = append(why, "returns the context's error outside its Done arm")
 			}
 		default:
@@ -321,7 +323,9 @@ func c11r5(r *R) {
 		if ii >= 0 && ii < si {
 			why = append(why, "idle upstream connections closed before the drain")
 		}
-		isT := p.hasCond(func(c string) bool { return strings.HasSuffix(c, ".(*net/http.Transport)#1") && !strings.HasPrefix(c, "!") })
+		isT := p.hasCond(func(c string) bool {
+			return strings.HasSuffix(c, ".(*net/http.Transport)#1") && !strings.HasPrefix(c, "!")
+		})
 		if isT && ii < 0 {
 			why = append(why, "idle upstream connections are not closed")
 		}
@@ -330,7 +334,9 @@ func c11r5(r *R) {
 	ps, _ = enumPaths(serve, 64, 1)
 	why = nil
 	for _, p := range ps {
-		closed := p.hasCond(func(c string) bool { return strings.HasPrefix(c, "errors.Is(") && strings.HasSuffix(c, ", net.ErrClosed)") })
+		closed := p.hasCond(func(c string) bool {
+			return strings.HasPrefix(c, "errors.Is(") && strings.HasSuffix(c, ", net.ErrClosed)")
+		})
 		if closed && p.Ret[0] != "nil" {
 			why = append(why, "listener closed is reported as a failure")
 		}
